@@ -117,9 +117,10 @@ def within(v, refs, rel, abs_):
     v = float(v)
     refs = [float(r) for r in refs]
     if math.isnan(v):
-        return any(math.isnan(r) for r in refs)
-    if any(math.isnan(r) for r in refs):
+        return math.isnan(refs[0])
+    if math.isnan(refs[0]):
         return False
+    refs = [r for r in refs if not math.isnan(r)]   # neighbours (+-1 ulp of the angle) may leave the domain
     if math.isinf(v):
         return v in refs
     lo, hi = min(refs), max(refs)
@@ -394,28 +395,47 @@ def judge(ctx, tracer, dz, icep, g, paths, tr, stats):
         R, L, T = o["vals"]
         scale = np.array([max(rho, abs(g["z_from"] - g["z_to"]), 1.0), L, T])
         tol = 1e-9 * scale + np.array([1e-7, 1e-7, 1e-7 / C])
-        # the reported angle is brentq's root of the tracer's distance function: xtol = 1e-12 rad (+ 4 eps rtol)
-        dth = 2.5e-12 + 1e-15
+        # conditioning: the reported direction is a rounded float vector (a few ulp in beta), and the reported
+        # angle is brentq's root of the tracer's distance function (xtol = 1e-12 rad + 4 eps rtol).  The oracle's own
+        # derivative d(R, L, T)/d beta (finite difference, step 1e-9 beta kept below the turning limit) sizes both.
         nlow = nprof(icep, min(g["z_from"], g["z_to"]))
-        brent = 0.0
-        for sgn in (-1, 1):
-            rl = root_low + sgn * dth
-            b2 = nlow * math.sin(rl)
-            if 0 < b2 < n0:
-                try:
-                    th2 = math.asin(min(1.0, b2 / nf))
-                    if e[2] < 0:
-                        th2 = math.pi - th2
-                    o2 = O.trace(n0, k, a, g["z_from"], g["z_to"], th2, bool(p.direct), icep["hi"])
-                    brent = max(brent, abs(o2["vals"][0] - R))
-                except ValueError:
-                    brent = max(brent, 0.0)
-        tol[0] += 1.5 * brent
+        nhi = nprof(icep, max(g["z_from"], g["z_to"]))
+        def at(b):
+            if not (0 < b < n0):
+                return None
+            try:
+                th2 = math.asin(min(1.0, b / nf))
+                if e[2] <= 1e-9 and g["z_to"] < g["z_from"]:
+                    th2 = math.pi - th2
+                return O.trace(n0, k, a, g["z_from"], g["z_to"], th2, bool(p.direct), icep["hi"])["vals"]
+            except ValueError:
+                return None
+        d_round = 16 * math.ulp(beta)
+        d_brent = nlow * abs(math.cos(root_low)) * 2.6e-12 + nlow * 0.5 * 2.6e-12 ** 2 + d_round
+        cap = nhi - 4 * math.ulp(nhi) if p.direct else n0
+        got_any = False
+        for d, idx in ((d_brent, [0]), (d_round, [1, 2])):
+            for sgn in (1, -1):
+                v2 = at(min(beta + sgn * d, cap))
+                if v2 is not None:
+                    got_any = True
+                    for j in idx:
+                        tol[j] += 1.5 * abs(v2[j] - o["vals"][j])
+        if not got_any:
+            stats["ill_conditioned_skipped"] = stats.get("ill_conditioned_skipped", 0) + 1
+            continue
         if tracer == "SpecializedRayTracer":
             # documented model: uniform index n0 below z_uniform -- its deviation from the profile is allowed
             for (za, zb, _) in legs:
                 tr_, mo_ = O.model_split(n0, k, a, beta, za, zb, zu)
                 tol += np.abs(tr_ - mo_) * 1.01
+            if beta <= 0.005 * (1 + 1e-6):
+                # beta <= beta_tolerance: the code integrates ds = dz and dt = n dz / c (the beta = 0 forms); the
+                # true integrands are larger by the factor sec-ratio n / sqrt(n^2 - beta^2) <= value at the top
+                ntop = nprof(icep, icep["hi"])
+                fac = ntop / math.sqrt(ntop * ntop - beta * beta) - 1.0
+                tol[1] += 1.01 * fac * L
+                tol[2] += 1.01 * fac * T
         else:
             tol += darboux_allowance(icep, beta, legs, dz)
         got = np.array([rho, float(p.path_length), float(p.tof)])
@@ -423,12 +443,14 @@ def judge(ctx, tracer, dz, icep, g, paths, tr, stats):
         stats.setdefault("max_excess", {})
         for j, nm in enumerate(("arrival", "path_length", "tof")):
             key = "%s:%s" % (tracer, nm)
-            stats["max_excess"][key] = max(stats["max_excess"].get(key, 0.0), float(err[j] / tol[j]) if np.isfinite(err[j]) else float("inf"))
+            kf = tracer == "SpecializedRayTracer" and nm == "arrival" and (beta <= 0.005 * (1 + 1e-6) or (not p.direct and root_low > max_angle - 1.000001e-6))
+            if not kf:
+                stats["max_excess"][key] = max(stats["max_excess"].get(key, 0.0), float(err[j] / tol[j]) if np.isfinite(err[j]) else float("inf"))
             if not (err[j] <= tol[j]):
                 what = ("solution %d (%s): %s of the ray launched in the reported direction is %r but the tracer reports %r "
                         "(|difference| %.3g > tolerance %.3g); beta=%r: %s" % (
                             i, "direct" if p.direct else "indirect", nm, [R, L, T][j], got[j], err[j], tol[j], beta, tag))
-                if tracer == "SpecializedRayTracer" and beta <= 0.005 * (1 + 1e-6):
+                if tracer == "SpecializedRayTracer" and beta <= 0.005 * (1 + 1e-6) and nm == "arrival":
                     out.append((K_BETA_TOL, what))
                 elif tracer == "SpecializedRayTracer" and not p.direct and root_low > max_angle - 1.000001e-6 and nm == "arrival":
                     out.append((K_LINK, what))
@@ -443,8 +465,8 @@ KINDS = ["shallow", "deep", "cross", "vertical", "shadow"]
 
 def probes_and_e2e(ctx, do_model=True, escalate=1):
     rng = ctx.rng
-    n_spec = ctx.n(60, 1500) * escalate
-    n_basic = ctx.n(2, 40) * escalate
+    n_spec = ctx.n(80, 500) * escalate
+    n_basic = ctx.n(5, 40) * escalate
     stats = {"geometries": {}, "solutions": 0, "no_solution": 0, "tracer_exception": 0}
     e2e_cases, e2e_expect, e2e_meta = [], [], []
     plan = [("SpecializedRayTracer", 1.0, n_spec)] + [("BasicRayTracer", dz, n_basic) for dz in (0.1, 1.0, 5.0)]
@@ -490,7 +512,7 @@ def probes_and_e2e(ctx, do_model=True, escalate=1):
                 full = key if key in (K_BETA_TOL, K_LINK) else "%s:%s:%s:%r:%r:%r" % (key, tracer, icep["cls"], g["z_from"], g["z_to"], g["rho"])
                 ctx.fail(full, what, rec)
             # ---- end-to-end correspondence: the model evaluated at the reported launch angle
-            if do_model and (tracer == "SpecializedRayTracer" or len(e2e_cases) < 4000):
+            if do_model and len(e2e_cases) < ctx.n(6000, 24000):
                 fp, tp = endpoints(g)
                 pre = "sPath" if tracer == "SpecializedRayTracer" else "bPath"
                 for p in paths:
